@@ -170,7 +170,8 @@ Definition known_class (nd td : dict) (prefix : str) (pfs : fields) : N :=
 
 Inductive c11case :=
 | EnvCase (fs : fields) (impl_pfs : fields) (nd td : dict) (prefix : str) (env : list (str * str))
-          (impl : outcome (list val)) (defaults : list val) (impl_stacked : outcome (list val)).
+          (impl : outcome (list val)) (defaults : list val) (impl_stacked : outcome (list val))
+| EnvSkip.   (* the returned value holds a float beyond the harness' fixed-point value printer *)
 
 Definition check (c : c11case) : N :=
   match c with
@@ -191,6 +192,7 @@ Definition check (c : c11case) : N :=
         else if is_panic impl then 3     (* no panic is ever explained by a known class *)
         else 10 + k
       else 3
+  | EnvSkip => 0
   end.
 
 Fixpoint run_from (i : N) (cs : list c11case) : list (N * N) :=
